@@ -2,6 +2,7 @@ CONSTANTS
   Dev = {"LenientNumber"}
   Alphabet <- AlphaTok
   MaxLen = 2
+  Prune = FALSE
   DepthProbe = {256}
 INIT MInit
 NEXT MNext
